@@ -379,6 +379,8 @@ public:
 
     if constexpr (std::is_pointer_v<T>) {
       auto ptr = this->impl().get_raw_value();
+      detail::dynamic_check(ptr != nullptr,
+                            "Pointer arithmetic on a null pointer");
 
       // increment the target by size of the data structure
       auto target =
